@@ -307,7 +307,14 @@ def pipeline(ctx):
                 if isinstance(t, Op) and t.op == "slice" and isinstance(t.args[1], Const) and isinstance(t.args[2], Const) and "cs" not in key(t.args[0]):
                     win, base = (t.args[1].v, t.args[2].v), t.args[0]
             if win is None:
-                ob.unknown("ext=%s phase %d: overlap window slice not found in %s" % (ext, ph, key(ins[0].value)[:120]))
+                # no mask at all on the way into the bit-slip: the slipped word spans the cycle boundary, so a mask applied later (to the outputs, or one cycle
+                # late) cannot cut exactly the slots of the suppressed command
+                if not any(isinstance(t_, (Obj, Sym)) and ".cs" not in key(t_) and "cs" != key(t_) for t_ in subterms(ins[0].value) if not isinstance(t_, Op)):
+                    ob.refute("cs-unmasked:%s:%d" % (ext, ph), "phase %d: CS enters its bit-slip as %s, without the overlap mask: a command that overlaps one still in flight "
+                              "is not suppressed where it is issued (masking the slipped outputs later also removes the carried-over slots of legal commands)" %
+                              (ph, key(ins[0].value)[:100]), ins[0].loc)
+                else:
+                    ob.unknown("ext=%s phase %d: overlap window slice not found in %s" % (ext, ph, key(ins[0].value)[:120]))
                 continue
             bw = None
             if isinstance(base, Obj):
